@@ -29,4 +29,20 @@ Rank2(x) == [t \in 1..Len(x) |-> 2 * Cardinality({s \in 1..Len(x) : x[s] < x[t]}
 GaussMIDefined(x, y) == /\ Var(x) > 0 /\ Var(y) > 0
                         /\ Var(x) * Var(y) <= 4096 /\ Var(x) * Var(y) - Cov(x, y) * Cov(x, y) >= 1
 GaussMI6(x, y) == (Ln6(Var(x) * Var(y)) - Ln6(Var(x) * Var(y) - Cov(x, y) * Cov(x, y))) \div 2
+\* ---- surrogate test matrices (Surrogates.test_pearson_correlation / test_mutual_information) ----
+\* entry (i, j), i # j: original series i against surrogate series j; the diagonal is left at 0
+MeanProduct6(x, y) == FxDiv(SumN(LAMBDA t : x[t] * y[t], 1, Len(x)), Len(x), 1000000)
+\* equal-width bins over the COMMON range [mn, mx] of both arrays; the maximum falls into the last bin
+BinOf(v, mn, mx, nb) == IF v - mn >= mx - mn THEN nb - 1 ELSE ((v - mn) * nb) \div (mx - mn)
+Count1(x, mn, mx, nb, l) == Cardinality({t \in 1..Len(x) : BinOf(x[t], mn, mx, nb) = l})
+Count2(x, y, mn, mx, nb, l, m) ==
+  Cardinality({t \in 1..Len(x) : BinOf(x[t], mn, mx, nb) = l /\ BinOf(y[t], mn, mx, nb) = m})
+\* sum_{l,m} p_lm ln(p_lm / (p_l p_m)) with p = count / T, scaled 10^6
+BinnedMI6(x, y, mn, mx, nb) ==
+  LET T == Len(x) IN
+  SumN(LAMBDA l : SumN(LAMBDA m :
+        LET c == Count2(x, y, mn, mx, nb, l, m) IN
+        IF c = 0 THEN 0
+        ELSE (c * (Ln6(c * T) - Ln6(Count1(x, mn, mx, nb, l) * Count1(y, mn, mx, nb, m)))) \div T,
+      0, nb - 1), 0, nb - 1)
 =============================================================================
